@@ -487,7 +487,7 @@ def isbuiltintype(
 @compat.cache
 def isstdlibtype(obj: type) -> compat.TypeIs[type[STDLibtypeT]]:
     if isoptionaltype(obj):
-        nargs = tp.get_args(obj)[:-1]
+        nargs = (*(a for a in tp.get_args(obj) if not isnonetype(a)),)
         return all(isstdlibtype(a) for a in nargs)
     if isuniontype(obj):
         args = tp.get_args(obj)
